@@ -26,6 +26,7 @@ VARIANTS = [
     V("metric-term-swapped-in-feature", T + "clip_multilabel_classification.py", "    return [\n        data.Feature(\n            term=term,\n            value=metric(\n                true_classes,\n                predicted_classes_scores,\n            ),\n        )\n        for term, metric in RUN_METRICS",
       "    return [\n        data.Feature(\n            term=terms.average_precision,\n            value=metric(\n                true_classes,\n                predicted_classes_scores,\n            ),\n        )\n        for term, metric in RUN_METRICS", "R09.5"),
     V("top3-labels-missing-none-class", M, "        labels=list(range(num_classes + 1)),", "        labels=list(range(num_classes)),", "R09.3"),
+    V("truth-row-dropped-for-unmatched-prediction", "src/soundevent/evaluation/tasks/sound_event_detection.py", "            true_classes.append(None)\n", "", "R09.6"),
     # neutral
     V("N-reorder-rows", T + "clip_classification.py", "    (terms.balanced_accuracy, metrics.balanced_accuracy),\n    (terms.accuracy, metrics.accuracy),\n", "    (terms.accuracy, metrics.accuracy),\n    (terms.balanced_accuracy, metrics.balanced_accuracy),\n", None),
     V("N-none-test-inverted", M, "        [y if y is not None else num_classes for y in y_true]\n    )\n    y_score = np.c_[y_score, 1 - y_score.sum(axis=1, keepdims=True)]\n    return metrics.top_k", "        [num_classes if y is None else y for y in y_true]\n    )\n    y_score = np.c_[y_score, 1 - y_score.sum(axis=1, keepdims=True)]\n    return metrics.top_k", None),
